@@ -12,7 +12,10 @@ use std::path::PathBuf;
 use std::sync::Arc;
 use vrp_cli::extensions::solve::formats::get_formats;
 use vrp_core::construction::features::{JobDemandDimension, VehicleCapacityDimension};
-use vrp_core::construction::heuristics::UnassignmentInfo;
+use vrp_core::construction::heuristics::{
+    ActivityContext, BestResultSelector, EvaluationContext, InsertionContext, InsertionPosition, InsertionResult, LegSelection,
+    MoveContext, UnassignmentInfo, eval_job_insertion_in_route,
+};
 use vrp_core::models::common::*;
 use vrp_core::models::problem::*;
 use vrp_core::models::solution::{Activity, Place as TourPlace, Registry, Route, Tour};
@@ -701,6 +704,230 @@ fn partition_routes(rng: &mut Rng, ids: &[i64], max_routes: usize) -> Vec<Vec<i6
     routes
 }
 
+fn rdist(a: (i64, i64), b: (i64, i64)) -> i64 {
+    // only used to steer generated windows towards the boundary; verdicts come from the Lean specification
+    let (dx, dy) = ((a.0 - b.0) as f64, (a.1 - b.1) as f64);
+    (dx * dx + dy * dy).sqrt().round() as i64
+}
+
+const BIG: i64 = 100_000;
+
+/// stream 3: a feasible tour `pre` and a customer `target` whose window / the depot's closing time / the capacity is placed at
+/// the boundary of what appending `target` needs; the real constraint evaluation must accept exactly when the file says so
+fn gen_bind(rng: &mut Rng, k: &'static str) -> Value {
+    let rounded = rng.chance(2, 3);
+    let n = rng.usize(1, 6);
+    // unrounded mode: all points on one horizontal line, so that every distance is an integer
+    let mut xy: Vec<(i64, i64)> = coords(rng, n + 1);
+    if !rounded {
+        let y = xy[0].1;
+        for p in xy.iter_mut() {
+            p.1 = y;
+        }
+    }
+    let depot_ready = if rng.chance(1, 4) { rng.range(1, 30) } else { 0 };
+    let timed = k != "tsp";
+    // tasks: (id, xy, signed demand, ready, due, service)
+    let mut ids = distinct_ids(rng, n, 1);
+    if k == "tsp" {
+        ids = (0..n as i64).map(|i| i + 2).collect();
+    }
+    let mut tasks: Vec<(i64, (i64, i64), i64, i64, i64, i64)> = (0..n)
+        .map(|i| {
+            let ready = if !timed { 0 } else if rng.chance(1, 2) { 0 } else { rng.range(0, 250) };
+            let service = if !timed || rng.chance(1, 4) { 0 } else { rng.range(1, 40) };
+            (ids[i], xy[i + 1], rng.range(1, 20), ready, BIG, service)
+        })
+        .collect();
+    // Li&Lim: tasks 2j, 2j+1 form request j (pickup, delivery); an odd task out gets a partner appended
+    let mut partner: HashMap<i64, i64> = HashMap::new();
+    if k == "lil" {
+        if tasks.len() % 2 == 1 {
+            let id = tasks.iter().map(|t| t.0).max().unwrap() + 1;
+            let p = if rounded { (rng.range(0, 30), rng.range(0, 30)) } else { (rng.range(0, 30), xy[0].1) };
+            tasks.push((id, p, 0, 0, BIG, 0));
+        }
+        for j in 0..tasks.len() / 2 {
+            let q = tasks[2 * j].2;
+            tasks[2 * j + 1].2 = -q;
+            partner.insert(tasks[2 * j].0, tasks[2 * j + 1].0);
+            partner.insert(tasks[2 * j + 1].0, tasks[2 * j].0);
+        }
+    }
+    let n = tasks.len();
+    // tour: a random order; Li&Lim: a delivery never before its pickup
+    let mut order: Vec<usize> = (0..n).collect();
+    rng.shuffle(&mut order);
+    if k == "lil" {
+        let mut fixed: Vec<usize> = vec![];
+        for &i in &order {
+            if tasks[i].2 > 0 || fixed.contains(&(i - 1)) {
+                fixed.push(i);
+                if tasks[i].2 > 0 && order.iter().position(|x| *x == i + 1) < order.iter().position(|x| *x == i) {
+                    // its delivery came earlier in the shuffle: place it right after, sometimes later
+                }
+            }
+        }
+        for &i in &order {
+            if !fixed.contains(&i) {
+                fixed.push(i);
+            }
+        }
+        // make sure of the precedence
+        let mut seen = HashSet::new();
+        let mut out = vec![];
+        let mut waiting = vec![];
+        for &i in &fixed {
+            if tasks[i].2 > 0 {
+                seen.insert(i);
+                out.push(i);
+                if let Some(p) = waiting.iter().position(|w| *w == i + 1) {
+                    out.push(waiting.remove(p));
+                }
+            } else if seen.contains(&(i - 1)) {
+                out.push(i);
+            } else {
+                waiting.push(i);
+            }
+        }
+        order = out;
+    }
+    let len = rng.usize(1, order.len());
+    order.truncate(len);
+    let target = order.pop().unwrap();
+    let pre = order;
+    // schedule of `pre` as the file says
+    let (mut t, mut at) = (depot_ready, xy[0]);
+    let (mut load, mut max_load, mut total) = (0i64, 0i64, 0i64);
+    for &i in &pre {
+        let c = tasks[i];
+        t = (t + rdist(at, c.1)).max(c.3) + c.5;
+        at = c.1;
+        load += c.2;
+        max_load = max_load.max(load);
+        total += c.2;
+    }
+    let pre_return = t + rdist(at, xy[0]);
+    let arr = t + rdist(at, tasks[target].1);
+    if timed {
+        match rng.below(6) {
+            0 => tasks[target].4 = arr - 1,
+            1 | 2 => tasks[target].4 = arr,
+            3 => tasks[target].4 = arr + 1,
+            _ => {}
+        }
+        match rng.below(4) {
+            0 => tasks[target].3 = (arr - rng.range(0, 10)).max(0),
+            1 => tasks[target].3 = (arr + rng.range(0, 10)).min(tasks[target].4.max(0)),
+            _ => tasks[target].3 = 0,
+        }
+    }
+    let c = tasks[target];
+    let end = arr.max(c.3) + c.5 + rdist(c.1, xy[0]);
+    let depot_due = if !timed {
+        BIG
+    } else {
+        match rng.below(6) {
+            0 => end - 1,
+            1 | 2 => end,
+            3 => end + 1,
+            _ => BIG,
+        }
+        .max(pre_return)
+        .max(tasks.iter().map(|t| t.3).max().unwrap_or(0))
+    };
+    // capacity at the boundary of what the extended tour needs, but never below what `pre` needs
+    let (need_pre, need_all) = if k == "lil" {
+        (max_load, max_load.max(load + c.2))
+    } else {
+        (total, total + c.2)
+    };
+    let capacity = match rng.below(6) {
+        0 => need_all - 1,
+        1 | 2 => need_all,
+        3 => need_all + 1,
+        _ => need_all + rng.range(0, 30),
+    }
+    .max(need_pre)
+    .max(0);
+    let vehicles = rng.range(1, 3);
+    let id_of = |i: usize| tasks[i].0;
+    let (lines, file) = match k {
+        "sol" => {
+            let customers: Vec<Value> = tasks
+                .iter()
+                .map(|t| json!({"id": t.0, "x": t.1.0, "y": t.1.1, "demand": t.2, "start": t.3, "stop": t.4, "service": t.5}))
+                .collect();
+            let mut lines: Vec<Line> = vec![];
+            for d in ["C101", "", "VEHICLE", "NUMBER     CAPACITY"] {
+                lines.push(Line::Text(d.into()));
+            }
+            lines.push(Line::Nums(vec![vehicles, capacity]));
+            for d in ["", "CUSTOMER", "CUST NO.  XCOORD.   YCOORD.    DEMAND   READY TIME  DUE DATE   SERVICE   TIME", ""] {
+                lines.push(Line::Text(d.into()));
+            }
+            lines.push(Line::Nums(vec![0, xy[0].0, xy[0].1, 0, depot_ready, depot_due, 0]));
+            for t in &tasks {
+                lines.push(Line::Nums(vec![t.0, t.1.0, t.1.1, t.2, t.3, t.4, t.5]));
+            }
+            (lines, json!({"vehicles": vehicles, "capacity": capacity,
+                           "depot": {"x": xy[0].0, "y": xy[0].1, "ready": depot_ready, "due": depot_due}, "customers": customers}))
+        }
+        "lil" => {
+            let rows: Vec<Value> = tasks
+                .iter()
+                .map(|t| {
+                    let (p, d) = if t.2 > 0 { (0, partner[&t.0]) } else { (partner[&t.0], 0) };
+                    json!({"id": t.0, "x": t.1.0, "y": t.1.1, "demand": t.2, "start": t.3, "stop": t.4, "service": t.5, "pIdx": p, "dIdx": d})
+                })
+                .collect();
+            let mut lines = vec![
+                Line::Nums(vec![vehicles, capacity, 1]),
+                Line::Nums(vec![0, xy[0].0, xy[0].1, 0, depot_ready, depot_due, 0, 0, 0]),
+            ];
+            for r in &rows {
+                lines.push(Line::Nums(
+                    ["id", "x", "y", "demand", "start", "stop", "service", "pIdx", "dIdx"].iter().map(|k| r[k].as_i64().unwrap()).collect(),
+                ));
+            }
+            (lines, json!({"vehicles": vehicles, "capacity": capacity,
+                           "depot": {"x": xy[0].0, "y": xy[0].1, "ready": depot_ready, "due": depot_due}, "rows": rows}))
+        }
+        _ => {
+            let mut nodes = vec![json!([1, xy[0].0, xy[0].1])];
+            let mut dem = vec![json!([1, 0])];
+            for t in &tasks {
+                nodes.push(json!([t.0, t.1.0, t.1.1]));
+                dem.push(json!([t.0, t.2]));
+            }
+            let mut lines = vec![
+                Line::Text("NAME : bind".into()),
+                Line::Text("COMMENT : generated".into()),
+                Line::Kv("TYPE".into(), json!("CVRP")),
+                Line::Kv("DIMENSION".into(), json!(nodes.len())),
+                Line::Kv("EDGE_WEIGHT_TYPE".into(), json!("EUC_2D")),
+                Line::Kv("CAPACITY".into(), json!(capacity)),
+                Line::Word("NODE_COORD_SECTION".into()),
+            ];
+            for v in nodes.iter().chain(std::iter::once(&json!("DEMAND_SECTION"))).chain(dem.iter()) {
+                match v {
+                    Value::String(w) => lines.push(Line::Word(w.clone())),
+                    _ => lines.push(Line::Nums(v.as_array().unwrap().iter().map(|x| x.as_i64().unwrap()).collect())),
+                }
+            }
+            lines.push(Line::Word("DEPOT_SECTION".into()));
+            lines.push(Line::Nums(vec![1]));
+            lines.push(Line::Nums(vec![-1]));
+            lines.push(Line::Word("EOF".into()));
+            (lines, json!({"capacity": capacity, "nodes": nodes, "demands": dem, "depot": 1}))
+        }
+    };
+    let text = render(rng, &lines, false, k == "tsp", true);
+    json!({"k": "bind", "fmt": k, "rounded": rounded, "lines": lines.iter().map(line_json).collect::<Vec<_>>(), "text": text,
+           "file": file, "tours": [], "in_hyp": true,
+           "pre": pre.iter().map(|i| id_of(*i)).collect::<Vec<_>>(), "target": id_of(target)})
+}
+
 fn gen_cases(rng: &mut Rng, tier: Tier) -> Vec<Value> {
     let scale = if tier == Tier::Thorough { 40 } else { 1 };
     let mut cases = vec![];
@@ -774,6 +1001,10 @@ fn gen_cases(rng: &mut Rng, tier: Tier) -> Vec<Value> {
         c["sol_text"] = json!(sol_text);
         c["tours"] = json!([]);
         cases.push(c);
+    }
+    // stream 3: capacity and time windows bind in the real constraint evaluation exactly as the file says
+    for i in 0..(600 * scale) {
+        cases.push(gen_bind(rng, ["sol", "lil", "tsp"][i % 3]));
     }
     cases
 }
@@ -1110,6 +1341,92 @@ fn read_solution_all_ways(fmt: &str, text: &str, problem: &Arc<Problem>) -> Valu
     va
 }
 
+fn quiet_env() -> Arc<Environment> {
+    Arc::new(Environment { logger: Arc::new(|_| {}), ..Environment::default() })
+}
+
+/// all singles (sub-jobs of multi jobs included) by the number in their id, with the job they belong to
+fn singles_by_number(problem: &Problem) -> HashMap<i64, (Arc<Single>, Job)> {
+    let mut m = HashMap::new();
+    for job in problem.jobs.all() {
+        match job {
+            Job::Single(s) => {
+                m.insert(s.dimens.get_job_id().unwrap().parse::<i64>().unwrap(), (s.clone(), job.clone()));
+            }
+            Job::Multi(multi) => {
+                for s in multi.jobs.iter() {
+                    let id = s.dimens.get_job_id().unwrap().strip_prefix('c').unwrap().parse::<i64>().unwrap();
+                    m.insert(id, (s.clone(), job.clone()));
+                }
+            }
+        }
+    }
+    m
+}
+
+fn new_activity(single: &Arc<Single>) -> Activity {
+    let place = &single.places[0];
+    Activity {
+        place: TourPlace {
+            idx: 0,
+            location: place.location.unwrap(),
+            duration: place.duration,
+            time: place.times[0].as_time_window().unwrap(),
+        },
+        schedule: Schedule::new(0., 0.),
+        job: Some(single.clone()),
+        commute: None,
+    }
+}
+
+/// does the real constraint evaluation (route level + activity level, as the insertion evaluator calls it) accept `target`
+/// at the end of a tour that serves `pre`?
+fn exec_bind(fmt: &str, problem: Arc<Problem>, pre: &[i64], target: i64) -> Value {
+    let off = if fmt == "tsp" { 1 } else { 0 };
+    let by_id = singles_by_number(&problem);
+    let mut registry = Registry::new(&problem.fleet, random());
+    let actor = registry.next().next().expect("no vehicle");
+    let mut tour = Tour::new(&actor);
+    let mut used: HashSet<Job> = HashSet::new();
+    for id in pre {
+        let (single, job) = by_id.get(&(id - off)).expect("unknown id in generated tour");
+        tour.insert_last(new_activity(single));
+        used.insert(job.clone());
+    }
+    registry.use_actor(&actor);
+    let unassigned =
+        problem.jobs.all().iter().filter(|j| !used.contains(j)).map(|j| (j.clone(), UnassignmentInfo::Unknown)).collect();
+    let solution = Solution { cost: 0., registry, routes: vec![Route { actor, tour }], unassigned, telemetry: None };
+    let ctx = InsertionContext::new_from_solution(problem.clone(), (solution, None), quiet_env());
+    let route_ctx = match ctx.solution.routes.first() {
+        Some(r) => r,
+        None => ctx.solution.registry.next_route().next().expect("no free route"),
+    };
+    assert_eq!(route_ctx.route().tour.job_activity_count(), pre.len(), "tour was changed while restoring the context");
+    let (single, job) = by_id.get(&(target - off)).expect("unknown target id");
+    // the calls `analyze_insertion_in_route_leg` makes for the last leg
+    let route_violation = problem.goal.evaluate(&MoveContext::route(&ctx.solution, route_ctx, job));
+    let (items, index) = route_ctx.route().tour.legs().last().expect("tour without legs");
+    let (prev, next) = match items {
+        [prev, next] => (prev, Some(next)),
+        _ => panic!("closed tour expected"),
+    };
+    let activity = new_activity(single);
+    let activity_ctx = ActivityContext { index, prev, target: &activity, next };
+    let activity_violation = problem.goal.evaluate(&MoveContext::activity(&ctx.solution, route_ctx, &activity_ctx));
+    let accepted = route_violation.is_none() && activity_violation.is_none();
+    if job.as_single().is_some() {
+        // single jobs: the public evaluator entry point must say the same
+        let result_selector = BestResultSelector::default();
+        let leg_selection = LegSelection::Exhaustive;
+        let eval_ctx = EvaluationContext { goal: &problem.goal, job, leg_selection: &leg_selection, result_selector: &result_selector };
+        let result =
+            eval_job_insertion_in_route(&ctx, &eval_ctx, route_ctx, InsertionPosition::Last, InsertionResult::make_failure());
+        assert_eq!(result.as_success().is_some(), accepted, "eval_job_insertion_in_route disagrees with goal.evaluate");
+    }
+    json!({"append_ok": accepted})
+}
+
 fn exec(case: &Value) -> Value {
     let k = case["k"].as_str().unwrap();
     let rounded = case["rounded"].as_bool().unwrap();
@@ -1140,6 +1457,15 @@ fn exec(case: &Value) -> Value {
             } else {
                 json!({"read": read_solution_all_ways(fmt, case["sol_text"].as_str().unwrap(), &problem)})
             }
+        }
+        "bind" => {
+            let fmt = case["fmt"].as_str().unwrap();
+            let (problem, _) = match read_problem(fmt, text, rounded) {
+                Ok(p) => p,
+                Err(e) => return json!({"err": e}),
+            };
+            let pre: Vec<i64> = serde_json::from_value(case["pre"].clone()).unwrap();
+            exec_bind(fmt, Arc::new(problem), &pre, case["target"].as_i64().unwrap())
         }
         other => panic!("unknown case kind {other}"),
     }
